@@ -63,6 +63,8 @@ pub struct Hist<'a> {
     pub pending_spenders: Vec<(Transaction, Vec<WCoin>)>,
     /// transactions accepted earlier in the block being built, with the coins they spent (those coins are gone now)
     pub spent_in_block: Vec<(Transaction, Vec<WCoin>)>,
+    /// hashes of the stake transactions generated in this history
+    pub stake_txs: Vec<TxHash>,
 }
 
 impl<'a> Hist<'a> {
@@ -639,6 +641,25 @@ impl<'a> Hist<'a> {
                 }
             }
         }
+        // an output of a stake transaction accepted earlier (its first output, or — what a staker would rather try —
+        // the change) is spent: locked for the life of the stake, whichever output it is, whichever batch or block
+        if em.stake_ops > 0 && !self.stake_txs.is_empty() && r.chance(1, 5) {
+            let p = self.parts(name);
+            let coins_map = CoinMapping::new(p.coins.clone());
+            let wcoins = self.wallet.coins(&coins_map, &self.w.names);
+            let pools: SmtMapping<Cas, PoolKey, PoolState> = SmtMapping::new(p.pools.clone());
+            let known: Vec<PoolKey> = vec![];
+            let cx = Ctx { height: p.height.0, network: p.network, mult: p.fee_multiplier, coins: &wcoins, pools: &pools, known_pools: &known };
+            let cands: Vec<WCoin> = wcoins.iter().filter(|c| self.stake_txs.contains(&c.id.txhash) && (c.id.index >= 1 || r.chance(1, 3))).cloned().collect();
+            if !cands.is_empty() {
+                let c = r.pick(&cands).clone();
+                if let Some(t) = gen_spend_of(r, &mut self.wallet, &cx, &c) {
+                    self.w.names.reg_tx(&t);
+                    self.bump("batch:spends-stake-output");
+                    return (vec![t], format!("spends-stake-output-{}", c.id.index.min(1)));
+                }
+            }
+        }
         // withdrawals that are fine one by one and too much together
         if em.pool_ops > 0 && r.chance(1, 2) {
             let p = self.parts(name);
@@ -676,6 +697,9 @@ impl<'a> Hist<'a> {
                     self.w.unsealed.insert(scratch_name.clone(), sc);
                 }
                 let _ = melvm::verif_hooks::take_log();
+                if tx.kind == TxKind::Stake && self.stake_txs.len() < 32 {
+                    self.stake_txs.push(tx.hash_nosigs());
+                }
                 txs.push(tx);
                 labels.push(label);
             }
@@ -1187,7 +1211,7 @@ fn script_big_block(h: &mut Hist, r: &mut Rng) {
 
 /// one history
 pub fn history(r: &mut Rng, w: &mut World, out: &mut Out, em: &Emphasis, stats: &mut BTreeMap<String, u64>) {
-    let mut h = Hist { w, wallet: Wallet::new(), out, stats: BTreeMap::new(), faucets_seen: vec![], pending_spenders: vec![], spent_in_block: vec![] };
+    let mut h = Hist { w, wallet: Wallet::new(), out, stats: BTreeMap::new(), faucets_seen: vec![], pending_spenders: vec![], spent_in_block: vec![], stake_txs: vec![] };
     if em.pool_ops >= 10 && r.chance(1, 16) {
         script_liquidity_ceiling(&mut h, r);
         merge(stats, &h.stats);
